@@ -214,13 +214,13 @@ func ToCommandLine(wf WireFormat, resolveIds bool) (rule string, err error) {
 		} else if len(r.arch) > 0 && r.arch != "b64" {
 			arch = r.arch
 		}
-		syscallTable, ok := auparse.AuditSyscalls[arch]
-		if !ok {
-			return "", fmt.Errorf("no syscall table for arch %s", arch)
-		}
+		// There may be no table for this arch. Then no names are known and
+		// all the syscalls are printed numerically.
+		syscallTable := auparse.AuditSyscalls[arch]
 		list := make([]string, len(r.syscalls))
 		for idx, syscallID := range r.syscalls {
-			list[idx], ok = syscallTable[int(syscallID)]
+			name, ok := syscallTable[int(syscallID)]
+			list[idx] = name
 			if !ok {
 				// No name is known for this number, print it numerically.
 				list[idx] = strconv.Itoa(int(syscallID))
